@@ -364,9 +364,15 @@ func (d *driver) drawFate(inc *incarnation) {
 	}
 	x := d.frng.Float64()
 	var f fate
+	multi := false
+	if br := d.getBR(inc.Key); br != nil && len(br.Spec.SelectedGPUGroups) > 1 {
+		multi = true // several reservation steps: the interesting place to die is between them
+	}
 	switch {
-	case x < 0.30:
+	case x < 0.22 || (x < 0.30 && !multi && d.frng.Float64() < 0.5):
 		f = fate{Kind: "clean"}
+	case x < 0.30:
+		f = fate{Kind: "dies-mid-attempt"}
 	case x < 0.42:
 		f = fate{Kind: "binder-not-started", Delay: 1 + d.frng.IntN(3)}
 	case x < 0.58:
@@ -613,6 +619,19 @@ func (d *driver) planFor(inc *incarnation, br *schedulingv1alpha2.BindRequest) (
 		}
 		f.stage = 1
 		return c11.Plan{CrashAt: k}, fmt.Sprintf("binder dies at the status patch (call %d/%d)", k, len(calls)), true
+	case "dies-mid-attempt":
+		if f.stage > 0 {
+			return c11.Plan{}, "", true
+		}
+		calls := dry()
+		bi := indexOf(calls, "binding-subresource")
+		if bi < 3 {
+			return c11.Plan{}, "", true
+		}
+		f.stage = 1
+		k := 2 + d.rng.IntN(bi-1) // any call of the attempt up to and including the binding call
+		inc.delayedGap = 1          // the scheduler runs before a new binder process looks at the request again
+		return c11.Plan{CrashAt: k}, fmt.Sprintf("binder dies at call %d/%d (%s) in the middle of the attempt; a scheduler cycle runs before the new binder retries", k, len(calls), calls[k-1].Kind), true
 	case "failed-not-recorded":
 		calls := dry()
 		k := indexOf(calls, "binding-subresource")
